@@ -75,7 +75,18 @@ def make_iterator(subj, cfg, cache=None):
     from .subjects import Subj, SubjArgs
 
     args = RenderArgs(Subj, SubjArgs(cfg["tag0"])) if cfg.get("tag0") else None
-    return RenderIterator(subj, args, build_padding(cfg["pad0"]), cfg["loops"], cfg["cache"] if cache is None else cache)
+    cache = cfg["cache"] if cache is None else cache
+    if cfg.get("reuse") is not None and cfg.get("n"):
+        # the iterator is built over render data its caller owns and has already used for an
+        # earlier iterator (``finalize=False``; advanced, possibly left with a seek pending,
+        # then closed): an iteration starts at frame 0 whatever the data went through
+        data = subj._get_render_data_(iteration=True)
+        first = RenderIterator._from_render_data_(subj, data, args, build_padding(cfg["pad0"]), cfg["loops"], cache, finalize=False)
+        for op in cfg["reuse"]:
+            apply_real(first, op)
+        first.close()
+        return RenderIterator._from_render_data_(subj, data, args, build_padding(cfg["pad0"]), cfg["loops"], cache, finalize=True)
+    return RenderIterator(subj, args, build_padding(cfg["pad0"]), cfg["loops"], cache)
 
 
 def expected_frame(number, sh, subj_dyn):
@@ -205,6 +216,9 @@ def gen_config(rnd, definite=None):
         cfg["n"] = rnd.randint(2, 6)
         cfg["cache"] = rnd.choice([False, True, cfg["n"] - 1, cfg["n"], cfg["n"] + 1, 100])
         cfg["tell0"] = rnd.choice([0, 0, rnd.randrange(cfg["n"])])
+        if rnd.random() < 0.2:
+            n = cfg["n"]
+            cfg["reuse"] = [["next"]] * rnd.choice([0, 1, n - 1, n, rnd.randint(0, 2 * n)]) + ([["seek", rnd.randint(-n, n), rnd.randrange(3)]] if rnd.random() < 0.5 else [])
     return cfg
 
 
